@@ -206,7 +206,7 @@ Qed.
 Lemma shutdown_classified_l sc script :
   verdict_of sc script = VShutdown ->
   final_is_shutdown sc script = true /\
-  final_err (verdict_of sc script) (last_err (steps_of sc script)) = Some (LShutdown :: last_err (steps_of sc script)).
+  final_err (verdict_of sc script) (last_err (steps_of sc script)) = Some (EWrap LShutdown (last_err (steps_of sc script))).
 Proof. intros V. unfold final_is_shutdown. rewrite V. simpl. split; reflexivity. Qed.
 
 Lemma reaches_wait_dec sc script k st :
@@ -306,7 +306,7 @@ Definition s4_scenario : scenario :=
   {| sc_cfg := s4_cfg; sc_timeout := 0; sc_sig := SLogs; sc_payload := [1]; sc_deadline := None; sc_cancel := None;
      sc_stop := Some 5; sc_draws := []; sc_tie := fun _ => [WTimer] |}.
 Definition s4_script : list attempt :=
-  [ {| a_dur := 10; a_res := RErr [] |}; {| a_dur := 10; a_res := ROk |} ].
+  [ {| a_dur := 10; a_res := RErr EBase |}; {| a_dur := 10; a_res := ROk |} ].
 
 Lemma s4_valid : valid_config s4_cfg.
 Proof. unfold valid_config. vm_compute. repeat split; reflexivity. Qed.
